@@ -1871,6 +1871,30 @@ class Summaries:
                 return out
             return eng.mk_default(st, rty)
 
+        @regx(r'^core::num::<impl u(8|16|32|64|size)>::checked_add$')
+        def _(ctx):
+            a, b = ctx.args
+            st = ctx.st
+            rty = ctx.ret_ty
+            if isinstance(a, NumV) and isinstance(b, NumV) and b.sym is None:
+                rlo, rhi = INT_RANGES.get(a.ty, (None, None))
+                if rhi is None:
+                    return eng.mk_default(st, rty)
+                top = NumV(None, rhi - b.k, a.ty)          # a + b fits  <=>  a <= MAX - b
+                r = eng.prove_le(st, a, top)
+                if r is True:
+                    return some(rty, NumV(a.sym, a.k + b.k, a.ty))
+                if r is False:
+                    return none(rty)
+                s2 = st.fork()
+                out = []
+                if eng.assume_le(st, a, top):
+                    out.append((st, some(rty, NumV(a.sym, a.k + b.k, a.ty))))
+                if eng.assume_cmp(s2, 'lt', top, a):
+                    out.append((s2, none(rty)))
+                return out
+            return eng.mk_default(st, rty)
+
         @regx(r'as std::ops::Shl<i32>>::shl$|as std::ops::Shl<u32>>::shl$')
         def _(ctx):
             a = deref(ctx, ctx.args[0])
